@@ -25,6 +25,7 @@ import tempfile
 from datetime import datetime, timedelta, timezone
 
 from . import common
+from . import edgevals
 from .common import Check, sx
 from .evutil import BASE, dt, us_of_dt, us_of_td
 
@@ -418,6 +419,19 @@ def rand_json(rng, depth=0):
                     for _ in range(rng.randrange(0, 3))]
         else:
             d[k] = rng.choice([1, 1.5, "a", "b\"q", "é中", None, True, 0])
+    # round 5: the containers a caller hands over are not always exact dict / list: OrderedDict, defaultdict, a list
+    # subclass (harness/edgevals.py), at any depth, below and above plain ones
+    r = rng.random()
+    if r < 0.12:
+        d = edgevals.ODict(d)
+    elif r < 0.2:
+        dd = edgevals.DDict(list)
+        dd.update(d)
+        d = dd
+    if rng.random() < 0.2:
+        for k in list(d):
+            if type(d[k]) is list:
+                d[k] = edgevals.ListSub(d[k])
     return d
 
 
@@ -528,7 +542,37 @@ def corpus(Event):
         w.mut_scalar(g + (1, 0), rng)
         w.get_events(1)
 
-    return [w01, ids_and_replace, metadata, missing, shared_between_values]
+    def subclass_containers(w, rng):
+        """w01 / metadata again with data built from dict / list subclasses at every depth (a copy that dispatches on
+        the exact type shares them), through every call that takes a caller object"""
+        for k, style in enumerate(("odict", "ddict", "listsub", "mixed", "all")):
+            b = k + 1
+            d = w.alloc(edgevals.dress({"owner": {"n": [1, {"deep": True}]}, "l": [[1], {"q": []}]}, style))
+            w.create_bucket(b, d, name="named")
+            w.mut_scalar(d + (0,), rng)
+            w.mut_scalar(d + (1, 0), rng)
+            w.get_metadata(b)
+            e = w.alloc(ev(0, 1, edgevals.dress({"k": {"n": [1, {"z": 2}]}, "t": [{"x": 1}, [2]]}, style)))
+            w.insert_one(b, e)
+            w.mut_scalar(e + (0, 0), rng)
+            w.mut_scalar(e + (0, 1), rng)
+            w.mut_scalar(e + (0, 0, 0), rng)
+            e2 = w.alloc(ev(2, 1, edgevals.dress({"k": {"n": [1]}, "t": [{"x": 1}]}, style)))
+            e3 = w.alloc(ev(3, 1, edgevals.dress({"a": [{"y": [1, {"z": 2}]}]}, style)))
+            w.insert_many(b, [e2, e3])
+            w.mut_scalar(e2 + (0, 0), rng)
+            w.mut_scalar(e3 + (0, 0, 0), rng)
+            w.get_events(b)
+            w.replace(b, 0, e3)
+            w.mut_scalar(e3 + (0, 0), rng)
+            w.replace_last(b, e2)
+            w.mut_scalar(e2 + (0, 1), rng)
+            w.update_bucket(b, d, type_="t2")
+            w.mut_scalar(d + (0, 0), rng)
+            w.get_events(b)
+            w.drop_all()
+
+    return [w01, ids_and_replace, metadata, missing, shared_between_values, subclass_containers]
 
 
 def random_history(w, rng, Event, n_ops):
